@@ -211,6 +211,41 @@ def runOps (j : Json) : Except String Json := do
   return jobj [("steps", jarr out.reverse), ("init", stateJson env Attrs.init),
                ("initInv", jbool (decide (Inv Attrs.init)))]
 
+/-- one step of a two-object history: {"k": "copy", "on": 0|1} (`other = this.copy()`), or an
+    attribute operation with "on": 0|1 (default 0) -/
+def getOp2 (j : Json) : Except String Op2 := do
+  let on := match j.getObjVal? "on" with
+    | .ok v => (v.getNat?.toOption.getD 0) == 1
+    | .error _ => false
+  let k ← getStr j "k"
+  if k == "copy" then pure (.copy on) else .on on <$> getOp j
+
+/-- op `c09.run2` : {env, ops} ↦ per step the projected states of BOTH objects, the outcome, `hyp`
+    (the prefix satisfies `AllOk2`: hypothesis of `C09_inv2_history`), `inv0`/`inv1` (`Inv` on the
+    two model states), `fok` (`FiltersOk` on both: `C09_filters_ok2_history`, no hypothesis) -/
+def runOps2 (j : Json) : Except String Json := do
+  let env ← getEnv j
+  let ops ← (← getArr j "ops").mapM getOp2
+  -- `hypM`: like `hyp`, but a copy may carry hashes (the model is exact there too; only `Inv`, whose
+  -- stamp clause needs the object's own content path, is not claimed): domain of the M-vs-I comparison
+  let copyM (s : St) : Bool := match s.pl with | none => true | some pl => defaultMin ≤ pl && pl ≤ defaultMax
+  let okM (w : St2) : Op2 → Bool
+    | .copy false => copyM w.a
+    | .copy true => copyM w.b
+    | op => decide (OpOk2 w op)
+  let (_, _, _, out) := ops.foldl (init := (Attrs.init2, true, true, ([] : List Json)))
+    fun (acc : St2 × Bool × Bool × List Json) op =>
+      let (w, hyp, hypM, out) := acc
+      let hyp' := hyp && decide (OpOk2 w op)
+      let hypM' := hypM && okM w op
+      let (w', r) := apply2 env w op
+      (w', hyp', hypM',
+       jobj [("state0", stateJson env w'.a), ("state1", stateJson env w'.b), ("res", resJson r),
+             ("hyp", jbool hyp'), ("hypM", jbool hypM'), ("inv0", jbool (decide (Inv w'.a))),
+             ("inv1", jbool (decide (Inv w'.b))),
+             ("fok", jbool (decide (FiltersOk w'.a) && decide (FiltersOk w'.b)))] :: out)
+  return jobj [("steps", jarr out.reverse), ("init", stateJson env Attrs.init)]
+
 /-- op `c09.calc` : {size, min, max} ↦ `calculate_piece_size(size, min, max)` on integers -/
 def calcOp (j : Json) : Except String Json := do
   let size ← getNat j "size"
@@ -229,6 +264,7 @@ def calcOp (j : Json) : Except String Json := do
 def handle (op : String) (j : Json) : Except String Json :=
   match op with
   | "c09.run" => runOps j
+  | "c09.run2" => runOps2 j
   | "c09.calc" => calcOp j
   | _ => throw s!"unknown op {op}"
 
